@@ -154,6 +154,22 @@ let parse_n_list (s : string) : coq_N list =
 let run_cnt id rest =
   if Stdlib.String.length rest > 1 && Stdlib.String.sub rest 0 2 = "E " then id ^ " ok model-not-consulted" else
   match split_on ' ' rest with
+  | ["M"; rate; ch; bps; blocks] ->
+    let n s = n_of_int (int_of_string s) in
+    (match Ctor.streaminfo_ctor (n rate) (n ch) (n bps) with
+     | Ok info ->
+       let metas = if blocks = "-" then [] else Stdlib.List.map (fun b ->
+         match split_on ':' b with
+         | [tag; len] -> let tag = int_of_string tag and len = int_of_string len in
+           (n_of_int tag, Stdlib.List.init len (fun j -> n_of_int ((tag * 31 + j * 7) mod 256)))
+         | _ -> failwith "meta block") (split_on ',' blocks) in
+       let st = { Component.s_info = info; s_meta = metas; s_frames = [] } in
+       (match Component.stream_ops st, Component.stream_bytes st with
+        | Ok ops, Ok bytes ->
+          let w = dec_of_n (OpsLen.ops_len N0 ops) in
+          Printf.sprintf "%s ok count=%s written=%s written64=%s %s same=1" id (dec_of_n (Component.stream_count_bits st)) w w (hex_of_bytes bytes)
+        | _ -> id ^ " write-err")
+     | _ -> id ^ " err")
   | ["R"; order; block; warmup; params; quot; rem] ->
     let n s = n_of_int (int_of_string s) in
     let r = { Rice.r_order = n order; r_block = n block; r_warmup = n warmup; r_params = parse_n_list params;
@@ -239,7 +255,13 @@ let run_fail id rest =
             else s in
           let nth_mod l i = let n = Stdlib.List.length l in if n = 0 then None else Some (Stdlib.List.nth l (i mod n)) in
           let comp_ops : (Sink.op list) Base.coq_Res option =
-            if mode = "s" || mode = "m" then Some (Component.stream_ops s) else begin
+            if mode = "s" || mode = "m" then Some (Component.stream_ops s)
+            else if mode.[0] = 'x' then begin
+              let k = int_of_string (Stdlib.String.sub mode 1 (Stdlib.String.length mode - 1)) in
+              let metas = Stdlib.List.init k (fun b -> let tag = 2 + b and len = 3 + 5 * b in
+                (n_of_int tag, Stdlib.List.init len (fun j -> n_of_int ((tag * 31 + j * 7) mod 256)))) in
+              Some (Component.stream_ops { s with Component.s_meta = metas })
+            end else begin
               let kind = Stdlib.String.sub mode 0 1 in
               let idx = Stdlib.String.sub mode 1 (Stdlib.String.length mode - 1) in
               let (i, j) = (match split_on '.' idx with [a; b] -> (int_of_string a, int_of_string b) | [a] -> (int_of_string a, 0) | _ -> (0, 0)) in
